@@ -69,6 +69,19 @@ def check_written(ctx, prog, text, vtk=None):
         ctx.prove("cell-zone-as-declared", b["zone"] == op.cell_zone)
         ctx.prove("three-counts-and-a-grading", len(b["counts"]) == 3 and all(int(n) >= 1 for n in b["counts"])
                   and ((b["grading_kind"] == "simpleGrading" and len(b["grading"]) == 3) or (b["grading_kind"] == "edgeGrading" and len(b["grading"]) == 12)))
+    # gradings: what the hex entry says about each of the 12 edges is the grading the model holds for that edge
+    if len(bl) == len(live) == len(mesh.blocks):
+        for b, blk in zip(bl, mesh.blocks):
+            entries = b["grading"]
+            if b["grading_kind"] == "simpleGrading" and len(entries) == 3:
+                entries = [entries[k // 4] for k in range(12)]
+            if len(entries) != 12:
+                continue
+            for k, (c1, c2) in enumerate(hexa.EDGE_GRADING_ORDER):
+                wire = blk.wires[c1][c2]
+                ctx.prove("hex-entry-grading-of-each-edge-is-the-models", _same_grading(entries[k], wire.grading.specification),
+                          edge=(c1, c2), written=entries[k], model=[list(map(float, x)) for x in wire.grading.specification])
+                ctx.prove("hex-entry-count-is-the-edges-count", int(b["counts"][k // 4]) == wire.grading.count, edge=(c1, c2))
     blocks_idx = [[int(t) for t in b["vertices"]] for b in bl]
     side_sets = {frozenset(bi[c] for c in hexa.FACE_SPEC[s]) for bi in blocks_idx for s in hexa.SIDES}
     # boundary: exactly the declared patches with type/settings and the quads of the assigned sides
@@ -132,6 +145,19 @@ def check_written(ctx, prog, text, vtk=None):
         nc = int(lines[ic].split()[1])
         cells = [[int(t) for t in l.split()] for l in lines[ic + 1: ic + 1 + nc]]
         ctx.prove("vtk-lists-the-same-hexahedra", nc == len(bl) and all(c[0] == 8 and c[1:] == bi for c, bi in zip(cells, blocks_idx)))
+
+
+def _same_grading(entry, spec, rtol=2e-5):
+    """entry: a number token or a list of (length ratio, count, expansion) triples; spec: the model's sections"""
+    if not isinstance(entry, list):
+        return len(spec) == 1 and abs(float(entry) - float(spec[0][2])) <= rtol * max(1.0, abs(float(spec[0][2])))
+    if len(entry) != len(spec):
+        return False
+    for e, m in zip(entry, spec):
+        if len(e) != 3 or abs(float(e[0]) - float(m[0])) > rtol * max(1.0, abs(float(m[0]))) or int(float(e[1])) != int(m[1]) \
+                or abs(float(e[2]) - float(m[2])) > rtol * max(1.0, abs(float(m[2]))):
+            return False
+    return True
 
 
 def _is_cycle(q, blocks_idx):
@@ -201,17 +227,26 @@ def tables(ctx):
 class _Prog:
     """A fixed script wrapped with the record check_written expects."""
 
-    def __init__(self, mesh, ops):
-        self.mesh, self.ops, self.deleted = mesh, ops, []
+    def __init__(self, mesh, ops, declared=None, deleted=()):
+        self.mesh, self.ops, self.deleted = mesh, ops, list(deleted)
         self.patch_kind, self.default_patch, self.merged, self.geometry, self.settings = {}, None, [], {}, {}
+        self.declared = declared   # [(op, side, name)] as the script declared them (later entries override)
 
     @property
     def live_ops(self):
-        return self.ops
+        return [op for op in self.ops if not any(op is d for d in self.deleted)]
 
     def declared_patches(self):
         out = {}
-        for op in self.ops:
+        if self.declared is not None:
+            final = {}
+            for op, side, name in self.declared:
+                final[(id(op), side)] = (op, side, name)
+            for op, side, name in final.values():
+                if any(op is o for o in self.live_ops):
+                    out.setdefault(name, []).append((op, side))
+            return out
+        for op in self.live_ops:
             for side, name in op.patch_names.items():
                 out.setdefault(name, []).append((op, side))
         return out
@@ -242,3 +277,97 @@ def spheres(ctx):
         ops += list(s_.operations)
     text, _ = write_text(mesh)
     check_written(ctx, _Prog(mesh, ops), text)
+
+
+# ------------------------------------------------------------------------------ scripts aimed at particular renderings
+def _lifted_box(cb, corner, dz=0.5):
+    box = cb.Box([0.0, 0.0, 0.0], [1.0, 1.0, 1.0])
+    (box.bottom_face if corner < 4 else box.top_face).points[corner % 4].translate([0.0, 0.0, dz if corner >= 4 else -dz])
+    return box
+
+
+PATCH_LISTS = {
+    "top-first": ["top", "left", "front"], "top-in-the-middle": ["right", "top", "back"], "bottom-first": ["bottom", "right"],
+    "bottom-then-top-then-side": ["bottom", "top", "left"], "sides-only": ["front", "back", "left", "right"], "all-six": ["top", "bottom", "left", "right", "front", "back"],
+}
+
+
+@proof("C06", "scripts/gradings-of-single-edges", cases=[(c, p) for c in range(8) for p in ("start_size", "end_size")], level="S", samples=1,
+       functions=["classy_blocks.items.block:Block.format_grading", "classy_blocks.items.wires.manager:WireManagerBase.is_simple", "classy_blocks.items.wires.axis:Axis.is_simple",
+                  "classy_blocks.grading.grading:Grading.description", "classy_blocks.mesh:Mesh.write"],
+       note="a box with one corner moved along z, chopped with a preserved cell size: exactly one or two of the four edges of a direction "
+            "differ (each position in turn); the hex entry must state the model's grading for each of the 12 edges")
+def single_edge_gradings(ctx):
+    import classy_blocks as cb
+
+    corner, preserve = ctx.case
+    box = _lifted_box(cb, corner)
+    box.chop(0, count=2)
+    box.chop(1, start_size=0.1, c2c_expansion=1.15, preserve=preserve)
+    box.chop(2, start_size=0.05, c2c_expansion=1.1, preserve=preserve)
+    mesh = Mesh()
+    mesh.add(box)
+    text, _ = write_text(mesh)
+    check_written(ctx, _Prog(mesh, [box]), text)
+    kind = F.blocks(F.parse(text))[0]["grading_kind"]
+    ctx.prove("differing-edges-need-edgeGrading", kind == "edgeGrading", kind=kind)
+
+
+@proof("C06", "scripts/patch-lists", cases=list(PATCH_LISTS), level="S", samples=1,
+       functions=["classy_blocks.construct.operations.operation:Operation.set_patch", "classy_blocks.lists.patch_list:PatchList.description"],
+       note="one patch name given to a list of sides (top/bottom anywhere in the list); a second box beside it with an overriding declaration")
+def patch_lists(ctx):
+    import classy_blocks as cb
+
+    sides = PATCH_LISTS[ctx.case]
+    a, b = cb.Box([0.0, 0.0, 0.0], [1.0, 1.0, 1.0]), cb.Box([1.0, 0.0, 0.0], [2.0, 1.0, 1.0])
+    declared = []
+    for op in (a, b):
+        for ax in range(3):
+            op.chop(ax, count=2)
+    a.set_patch(list(sides), "many")
+    declared += [(a, s_, "many") for s_ in sides if not (s_ == "right")] + [(a, s_, "many") for s_ in sides if s_ == "right"]
+    b.set_patch(list(sides[::-1]), "others")
+    declared += [(b, s_, "others") for s_ in sides]
+    b.set_patch(sides[0], "override")
+    declared.append((b, sides[0], "override"))
+    mesh = Mesh()
+    mesh.add(a)
+    mesh.add(b)
+    text, _ = write_text(mesh)
+    check_written(ctx, _Prog(mesh, [a, b], declared=declared), text)
+
+
+@proof("C06", "scripts/reassembled-after-deleting", cases=["delete-first", "delete-middle", "delete-last"], level="S", samples=1,
+       functions=["classy_blocks.mesh:Mesh.clear", "classy_blocks.lists.face_list:FaceList.clear", "classy_blocks.lists.edge_list:EdgeList.clear",
+                  "classy_blocks.lists.vertex_list:VertexList.clear", "classy_blocks.lists.block_list:BlockList.clear", "classy_blocks.mesh:Mesh.delete"],
+       note="three boxes with projected sides, edges and corners and patches: assemble, delete one operation, clear, write - the file must "
+            "describe the remaining model only (no stale faces, edges or vertices)")
+def reassembled(ctx):
+    import classy_blocks as cb
+
+    ops = [cb.Box([float(i), 0.0, 0.0], [float(i) + 1, 1.0, 1.0]) for i in range(3)]
+    declared = []
+    for i, op in enumerate(ops):
+        for ax in range(3):
+            op.chop(ax, count=2)
+        op.project_side("bottom", "floor", edges=(i == 1), points=(i == 2))
+        op.project_side("front", "wall_geo")
+        op.set_patch("top", f"lid{i}")
+        declared.append((op, "top", f"lid{i}"))
+        op.top_face.add_edge(0, cb.Arc(np.array([float(i) + 0.5, -0.2, 1.0])))
+    mesh = Mesh()
+    for op in ops:
+        mesh.add(op)
+    geo = {"floor": ["type plane", "planeType pointAndNormal", "point (0 0 0)", "normal (0 0 1)"],
+           "wall_geo": ["type plane", "planeType pointAndNormal", "point (0 0 0)", "normal (0 1 0)"]}
+    for k, v in geo.items():
+        mesh.add_geometry({k: v})
+    mesh.assemble()
+    victim = ops[{"delete-first": 0, "delete-middle": 1, "delete-last": 2}[ctx.case]]
+    mesh.delete(victim)
+    mesh.clear()
+    text, _ = write_text(mesh)
+    prog = _Prog(mesh, ops, declared=declared, deleted=[victim])
+    prog.geometry = geo
+    check_written(ctx, prog, text)
